@@ -211,12 +211,52 @@ def run_enabled(kind_i: int, target_i: int, how: int, en: bool, env: Optional[st
     return ok, witness
 
 
+def run_definition_guards(case: int) -> Tuple[bool, bool]:
+    """Definition-time rejections of explicitly enabled contracts are the same in every interpreter mode.
+    case 0: two bases contribute different same-named snapshots to an overriding member -> ValueError when the class is created;
+    case 1: a snapshot with a name already used on the same function -> ValueError;
+    case 2: preconditions added to a method whose only ancestor declares none -> TypeError."""
+    case = conc(case, 0, 2)
+    en = {"enabled": True}
+
+    def mk(name: str, cap: Any) -> Any:
+        def m(self: Any, xs: Any) -> Any:
+            return None
+        f = icontract.ensure(lambda result: True, **en)(m)
+        return icontract.snapshot(cap, name=name, **en)(f)
+    try:
+        if case == 0:
+            p1 = icontract.DBCMeta("P1", (icontract.DBC,), {"m": mk("n", lambda xs: xs[:])})
+            p2 = icontract.DBCMeta("P2", (icontract.DBC,), {"m": mk("n", lambda xs: len(xs))})
+            icontract.DBCMeta("Both", (p1, p2), {"m": (lambda self, xs: None)})
+        elif case == 1:
+            f = mk("n", lambda xs: xs[:])
+            icontract.snapshot(lambda xs: len(xs), name="n", **en)(f)
+        else:
+            base = icontract.DBCMeta("Base", (icontract.DBC,), {"m": (lambda self, x: None)})
+            icontract.DBCMeta("Derived", (base,), {
+                "m": icontract.require(lambda x: x > 0, **en)(lambda self, x: None)})
+        got = "accepted"
+    except ValueError:
+        got = "ValueError"
+    except TypeError:
+        got = "TypeError"
+    want = "TypeError" if case == 2 else "ValueError"
+    note(("definition_guards", case, got, sys.flags.optimize), True)
+    return got == want, True
+
+
 ALL = ["kind_i", "target_i", "how", "en", "env", "t", "kwcall"]
 
 
 def harnesses(tier: str) -> List[H]:
     out = []  # type: List[H]
     for flags, label in (([], "normal"), (["-O"], "O"), (["-OO"], "OO")):
+        out.append(H("definition_guards_{}".format(label), bind(run_definition_guards, (), ["case"], {}, ["case"]),
+                     [I("case", 0, 2)], tiers=(tier,), timeout=200, py_flags=flags,
+                     family="interpreter mode {}: explicitly enabled contracts that must be rejected when they are defined (two bases "
+                            "with same-named snapshots, a duplicate snapshot name on one function, preconditions added where the "
+                            "ancestor has none)".format(label), family_size=3))
         for how in range(3):
             params = [I("kind_i", 0, 3), I("target_i", 0, len(TARGETS) - 1)]
             defaults = {"how": how, "en": True, "env": None, "kwcall": False}  # type: Dict[str, Any]
